@@ -98,6 +98,25 @@ fn apply_call(d: &mut Distinfo, call: &[u8], rets: &mut String) -> Option<()> {
     Some(())
 }
 
+/// The Distinfo of a text, rebuilt through the public API the way a tool that fills it
+/// incrementally would: entries inserted one at a time (same order, same maps), with lookups of
+/// `probe` and of a path that is not recorded between the insertions.  Equal to parsing the text
+/// in one go for every query the ops make (lookups and verification).
+fn incremental(text: &[u8], probe: &Path) -> Distinfo {
+    let t = Distinfo::from_bytes(text);
+    let mut d = Distinfo::new();
+    if let Some(r) = t.rcsid() {
+        d.set_rcsid(r);
+    }
+    let _ = d.find_entry(probe).is_ok();
+    for e in t.distfiles().iter().chain(t.patchfiles().iter()) {
+        d.insert((*e).clone());
+        let _ = d.find_entry(probe).is_ok();
+        let _ = d.find_entry(Path::new("zz/not/recorded")).is_ok();
+    }
+    d
+}
+
 fn exec(op: &Op) -> String {
     match op.name.as_str() {
         "distinfo.line" => pkgsrc::distinfo::verif_line(&op.args[0]),
@@ -109,6 +128,12 @@ fn exec(op: &Op) -> String {
             for c in &op.args {
                 if apply_call(&mut d, c, &mut rets).is_none() {
                     return "BAD-CALL".into();
+                }
+                // a caller may look at the value between two updates: writing it out and reading
+                // its accessors changes nothing
+                let _ = (d.as_bytes().len(), d.rcsid().map(|r| r.len()), d.distfiles().len(), d.patchfiles().len());
+                for e in d.distfiles().iter().chain(d.patchfiles().iter()) {
+                    let _ = (e.as_bytes().len(), d.find_entry(&e.filename).is_ok());
                 }
             }
             let out = d.as_bytes();
@@ -126,7 +151,7 @@ fn exec(op: &Op) -> String {
             EntryType::Patchfile => "P".into(),
         },
         "distinfo.find" => {
-            let d = Distinfo::from_bytes(&op.args[0]);
+            let d = incremental(&op.args[0], path_of(&op.args[1]));
             match d.find_entry(path_of(&op.args[1])) {
                 Ok(e) => format!("found:{}", show_entry(e)),
                 Err(e) => verr(&e),
@@ -135,8 +160,8 @@ fn exec(op: &Op) -> String {
         "distinfo.verify" => {
             // args: distinfo, relative path, content, exists flag, plain hashes, patch hashes
             // (the hash arguments are for the model; the implementation computes its own)
-            let d = Distinfo::from_bytes(&op.args[0]);
             let p = path_of(&op.args[1]);
+            let d = incremental(&op.args[0], &Path::new("f").join(p));
             let exists = op.args[3] == b"1";
             if p.is_absolute() || p.components().any(|c| !matches!(c, std::path::Component::Normal(_))) {
                 return "BAD-PATH".into();
@@ -147,6 +172,15 @@ fn exec(op: &Op) -> String {
                 if let Some(parent) = full.parent() {
                     std::fs::create_dir_all(parent).unwrap();
                 }
+                // the same path first holds OTHER content of the same length and is verified once
+                // (results discarded): a later verification must look at the file as it is then
+                let other: Vec<u8> = op.args[2].iter().map(|c| if *c == b'\n' { *c } else { c ^ 0x01 }).collect();
+                std::fs::write(&full, &other).unwrap();
+                let _ = d.verify_size(&full).is_ok();
+                for dg in DIGESTS.iter() {
+                    let _ = d.verify_checksum(&full, *dg).is_ok();
+                }
+                let _ = d.verify_checksums(&full).len();
                 std::fs::write(&full, &op.args[2]).unwrap();
             }
             let size = match d.verify_size(&full) {
